@@ -18,7 +18,8 @@ META = {
         'point formats; decimal rendering of the code; "-" and "," joins; every list iterates the wire ordered attribute; '
         'GREASE is filtered in every list section (sibling agreement: the filter idiom of three sections must be in all four) '
         'and nothing else is filtered. R2 def-use agreement: every attribute compose() consumes to emit the cipher suite list '
-        'must be consumed by the cipher section of ja3.'),
+        'must be consumed by the cipher section of ja3.'
+        ' R3: the values ignored as GREASE are exactly the RFC 8701 values (C10.R6).'),
     'assumptions': ['byte-level layout of the client hello is covered by C06'],
     'trusted_base': ['python ast', 'sa/specs/fingerprints.json', 'sa.interp (attributes consumed by compose)'],
     'exhaustive': True,
